@@ -18,24 +18,42 @@ CFG = dict(
          "contract itself); the trusted collectors (collect_trusted_to_vec, collect_trusted_vec1 into VecDeque / "
          "ndarray, collect_vec1_with_len, write_trust_iter) after the contract was checked by plain iteration; plus "
          "1800 (thorough 30000) seeded random pipelines of depth 1..=6 over 13 stage kinds and 6 sources built by a "
-         "harness-side AST interpreter returning Box<dyn TrustedLen> and mirrored by Model.Iter.build. At every point "
+         "harness-side AST interpreter returning Box<dyn TrustedLen> and mirrored by Model.Iter.build; plus instruction "
+         "scripts over {next, next_back, nth k, nth_back k} (Model.Iter.instr / run_script) on shift / vshift / vdiff / "
+         "vpct_change (every lag of the band x pre-consumption), the partitions, the rolling iterator, titer of the "
+         "backends, to_trust(k), the std adaptors (whose overriding nth / nth_back are compared with the model's default "
+         "bodies), every second random pipeline, each followed by count() and last() of the state after the script, and "
+         "StepBy (std's client of nth) around vshift / vdiff / to_trust compared with Model.Iter.stepby, step 0 included. "
+         "At every point "
          "of every consumption script the harness records size_hint(), the number of items a fresh copy still yields "
          "by plain safe iteration, and the item; compared exactly with the model. non-trivial = non-empty input",
-    theorem_hint="Props/C09.v: C09_hint_exact_front, C09_hint_exact_both_ends, C09_hint_exact_pipeline, C09_len_preserved_*, C09_collect_safe",
+    theorem_hint="Props/C09.v: C09_hint_exact_front, C09_hint_exact_both_ends, C09_hint_exact_pipeline, C09_hint_exact_scripts, "
+                 "C09_nth_is_iterated_next, C09_nth_closed_form, C09_count_is_hint, C09_step_by_hint_exact, C09_len_preserved_*, C09_collect_safe",
     level_text="Proof: theorems (Props/C09.v, axiom-free) about an executable Gallina model of iterator states "
                "(std's Chain/Zip/Take/Skip/Map/Rev/Enumerate/RepeatN/Range, TrustIter with the repaired shrinking "
                "length, Linspace) and of the library's adaptors as constructors of such states with their guards: "
                "for every well-formed state and every sequence of next()/next_back() calls the upper bound of "
                "size_hint equals the number of items plain iteration still yields; every adaptor, for all parameters, "
                "maps well-formed states to well-formed states (so the law holds for every pipeline of the grammar); "
-               "shift-like adaptors preserve the length; the raw collector writes exactly slots 0..hint-1 once. The "
+               "shift-like adaptors preserve the length; the raw collector writes exactly slots 0..hint-1 once. "
+               "Consuming methods other than next / next_back are in the model as std defines the defaults TrustIter inherits "
+               "(nth, nth_back, advance_by, fold / rfold, last, count; Skip and StepBy built on nth): after EVERY script over "
+               "{next, next_back, nth k, nth_back k} the hint equals the number of items still yielded and the collector is "
+               "safe (C09_hint_exact_scripts*, C09_collect_safe_scripts); nth k is k+1 x next on every model state, item and "
+               "new state (C09_nth_is_iterated_next, C09_nth_is_advance_then_next), with the closed form nth_error / skipn "
+               "(firstn for nth_back) on well-formed states; count() is the announced bound, last() the last yielded item, "
+               "fold visits exactly the yielded items; StepBy's hint is exact at every point and it yields every step-th item. "
+               "Nothing is partial; what stays trusted is that std's OVERRIDING nth / nth_back (Chain, Take, Skip, Rev, "
+               "Enumerate, Range, slice iterators) are observationally the defaults - compared on every run. The "
                "model is tied to the code by the differential run described in `rule`.",
     level_note="Trusted: Coq kernel; the hand-written model of std's iterator adaptors and of the adaptors' bodies; the "
                "harness and comparator. That an over-long iterator really writes outside the allocation is a fact "
                "about the allocator that the model flags (COverflow) but does not exhibit. Polars backend and the "
                "private Linspace struct (reachable only through Vec1Create) are not exercised directly.",
     trusted=["the model of std iterator adaptors (chain, zip, take, skip, enumerate, map, rev, repeat_n, range) in Model/Iter.v",
-             "Box<dyn TrustedLen> / &mut dyn TrustedLen forward size_hint, next and nth to the boxed iterator"],
+             "Box<dyn TrustedLen> / &mut dyn TrustedLen forward size_hint, next and nth to the boxed iterator",
+             "std's overriding nth / nth_back / advance_by of Chain, Take, Skip, Rev, Enumerate, Range, RepeatN and the container "
+             "iterators are observationally the trait defaults the model uses (k+1 calls of next with early exit)"],
     assumptions=["usize arithmetic inside std's size_hint formulas does not overflow (lengths are idealised as nat)",
                  "Vec1Create::range::<usize> with step = 0 and end < start (panics on the subtraction before the division "
                  "by zero) is outside the generator"],
